@@ -322,6 +322,11 @@ def build_history(sc):
         # one git command of the reset evaluation fails once (stale lock in the mirror cache, network hiccup)
         reset_job['fault'] = {'mode': 'git_fail', 'cmd_index': sc['git_fail']}
     ev.append(reset_job)
+    for _ in range(sc.get('again', 0)):
+        # the command is posted once more and evaluated before anything else happened: it is carried out again (nothing
+        # is left to delete), and the evaluation after that one is the "next evaluation" of the statement
+        ev.append({'e': 'comment', 'pr': 1, 'user': 'author', 'text': '@bert-e ' + sc['cmd']})
+        ev.append({'e': 'job_pr', 'pr': 1, 'c15': 'again'})
     ev.append({'e': 'job_pr', 'pr': 1, 'c15': 'rebuild'})
     return {'cfg': cfg, 'events': ev, 'c15': {'src': SRC1, 'dst': dst, 'dests': dests, 'pr': 1, 'cmd': sc['cmd']},
             'scenario': sc}
@@ -385,10 +390,10 @@ def run_history(history, exe, facts):
                 tr.observe()
                 continue
             kind = ev.get('c15')
-            if kind is None:
+            if kind is None or kind == 'again':
                 rec = world.run_job(ev)
                 out['jobs'] += 1
-                count('prep_status:%s' % rec['status'])
+                count('%s_status:%s' % ('prep' if kind is None else 'repeated_command', rec['status']))
                 tr.observe()
                 continue
             before = world.dump()
@@ -525,6 +530,7 @@ def scenarios(ctx):
         res.append({'layout': 'L3', 'mode': 'queue', 'ops': ['P1'], 'cmd': 'reset'})
         res.append({'layout': 'FF3', 'mode': 'noqueue', 'ops': ['E', 'J', 'P1'], 'cmd': 'reset'})
         res += git_fault_scenarios(range(0, 12))
+        res += repeated_command_scenarios()
         return res
     # thorough: everything of length <= 1, then a seeded stratified sample of lengths 2..4
     full = []
@@ -553,6 +559,20 @@ def scenarios(ctx):
                         'no_octopus': rng.random() < 0.15})
     ctx.count('scenario_space_len<=4', len(full))
     res += git_fault_scenarios(range(0, 40))
+    res += repeated_command_scenarios()
+    for sc in rng.sample([r for r in res if 'git_fail' not in r and not r.get('again')], 60):
+        res.append(dict(sc, again=rng.choice([1, 1, 2])))
+    return res
+
+
+def repeated_command_scenarios():
+    """The command is posted and evaluated twice (three times) in a row; then "the next evaluation rebuilds"."""
+    res = []
+    for lay, mode in (('L3', 'noqueue'), ('L2', 'queue'), ('FF3', 'noqueue')):
+        for cmd in ('reset', 'force_reset'):
+            res.append({'layout': lay, 'mode': mode, 'ops': [], 'cmd': cmd, 'again': 1})
+    res.append({'layout': 'L3', 'mode': 'noqueue', 'ops': ['E', 'J'], 'cmd': 'reset', 'again': 2})
+    res.append({'layout': 'L3', 'mode': 'noqueue', 'ops': ['P0'], 'cmd': 'force_reset', 'again': 1})
     return res
 
 
